@@ -202,14 +202,27 @@ Qed.
 Lemma domain_name_labels a :
   wf_authority a = true -> ip_authority a = false ->
   get_domain (render_authority a) =
-    match split_byte dot (to_lower (host_text (a_host a))) with
+    let h := trim_suffix_byte dot (to_lower (host_text (a_host a))) in
+    match split_byte dot h with
     | _ :: ((_ :: _ :: _) as rest) => join_with [dot] rest
-    | _ => to_lower (host_text (a_host a))
+    | _ => h
     end.
 Proof.
   intros Hwf Hip. unfold ip_authority in Hip. unfold get_domain.
   rewrite hostname_of_rendered by assumption. now rewrite Hip.
 Qed.
+
+(* the dot that ends a fully qualified name is not a label: example.com. is in the domain
+   example.com (as www.example.com. and example.com are), not in "com." - which is what the code
+   said before the round-7 repair, making every *.com. host "the same domain" *)
+Lemma trailing_dot_examples :
+  get_domain (bs "example.com.") = bs "example.com" /\
+  get_domain (bs "www.Example.com.:443") = bs "example.com" /\
+  get_domain (bs "example.com") = bs "example.com" /\
+  permits PSameDomain (bs "evil.com.") [bs "example.com."] = false /\
+  get_domain_dotted (bs "example.com.") = bs "com." /\
+  get_domain_dotted (bs "evil.com.") = bs "com.".
+Proof. vm_compute. repeat split. Qed.
 
 Lemma same_domain_ip_iff a b via :
   wf_authority a = true -> wf_authority b = true ->
